@@ -1183,7 +1183,10 @@ impl Monitor for Ics {
         "cwv-app"
     }
     fn histories(&self, tier: Tier) -> u64 {
-        tier.pick(160, 12_000)
+        match self.prop {
+            "C12" => tier.pick(160, 36_000),
+            _ => tier.pick(160, 48_000),
+        }
     }
     fn mandatory(&self) -> Vec<&'static str> {
         match self.prop {
